@@ -243,11 +243,17 @@ func runC06(c *Ctx) {
 					for (root.Op == "faddr" || root.Op == "iaddr") && len(root.Args) > 0 {
 						root = root.Args[0]
 					}
-					if root.Op == "alloc" {
+					if root.Op == "alloc" && strings.HasSuffix(root.Aux, "/local") {
 						for j := range s.Effects {
 							e2 := &s.Effects[j]
-							if e2.Kind == "store" && e2.Addr.Op == "faddr" && (e2.Addr.Aux == "DocumentRule" || e2.Addr.Aux == "BasicRule") && u.Mentions(e2.Val, func(x *E) bool { return x == root }) {
-								target = e2.Addr.Aux
+							if e2.Kind != "store" || e2.Addr.Op != "faddr" || !(e2.Addr.Aux == "DocumentRule" || e2.Addr.Aux == "BasicRule") {
+								continue
+							}
+							// what is stored is the content of the cell (not merely something that mentions it)
+							for leaf := range u.Leaves(e2.Val) {
+								if (leaf.Op == "field" && leaf.Aux == ef.Addr.Aux && leaf.Args[0] == root) || (leaf.Op == "loopval" && strings.Contains(leaf.Aux, ef.Addr.key)) {
+									target = e2.Addr.Aux
+								}
 							}
 						}
 					}
